@@ -46,7 +46,7 @@ func (c16) Plan(tier string, seed uint64) []core.Case {
 		for _, pos := range c16positions {
 			extra := 0
 			if tier == "thorough" {
-				extra = 6
+				extra = 30
 			}
 			cases = append(cases, core.Case{ID: fmt.Sprintf("C16/L%d/%s", l, pos), Engine: "matrix", Seed: core.Derive(seed, uint64(l), uint64(len(pos))).Uint64(), P: map[string]interface{}{"limit": l, "pos": pos, "extra_rand": extra}, TimeoutS: 600})
 		}
@@ -131,8 +131,7 @@ func (p c16) one(r *core.Result, L int, cls string, framed int, pos, frag string
 	tp := rig.NewTransportPair(faultconn.Options{}, nil, cfg)
 	tp.CA.SetTap(false)
 	defer func() {
-		_ = tp.A.Close()
-		_ = tp.B.Close()
+		tp.Close()
 	}()
 	switch frag {
 	case "1":
